@@ -63,9 +63,9 @@ Alive(n) == n.launched /\ ~n.marked /\ ~n.deleting
 NLabels(n) == [k \in DOMAIN n.labels \cup {"host"} |-> IF k = "host" THEN (IF n.nodeExists THEN n.node ELSE n.claim) ELSE n.labels[k]]
 \* taints that count: an initialized node shows what is on the Node object; before that only the persistent taints of the
 \* NodeClaim count (startup taints and the known ephemeral ones are expected to go away)
-EffTaints(n) == IF n.initialized THEN n.nodeTaints ELSE n.taints
+MPEffTaints(n) == IF n.initialized THEN n.nodeTaints ELSE n.taints
 \* daemonsets that belong on the node and have no pod there yet
-Outstanding(cfg, n) == {d \in Range(cfg.ds) : DaemonRuns(cfg, d, NLabels(n), EffTaints(n)) /\ ~(\E x \in Range(n.daemons) : x = d.name)}
+Outstanding(cfg, n) == {d \in Range(cfg.ds) : DaemonRuns(cfg, d, NLabels(n), MPEffTaints(n)) /\ ~(\E x \in Range(n.daemons) : x = d.name)}
 Running(cfg, n) == {d \in Range(cfg.ds) : \E x \in Range(n.daemons) : x = d.name}
 \* everything that is assigned to the node: bound pods, the pods this pass put there, running and outstanding daemons
 NodeLoad(cfg, n, placed) == SumReq(PodRQ(cfg, Range(n.bound) \cup placed) \cup DsRQ(Running(cfg, n) \cup Outstanding(cfg, n)))
@@ -74,7 +74,7 @@ PodRes(p) == [cpu |-> p.cpu, mem |-> p.mem, pods |-> 1]
 NodeParts(cfg, n, placed, p) ==
     [ alive  |-> Alive(n) /\ HasType(cfg, n),
       labels |-> OrigRequired(cfg, p, NLabels(n)),
-      taints |-> TaintsTolerated(p.tol, EffTaints(n)),
+      taints |-> TaintsTolerated(p.tol, MPEffTaints(n)),
       fit    |-> HasType(cfg, n) /\ LeqRes(AddRes(NodeLoad(cfg, n, placed \ {PKey(p)}), PodRes(p)), TruthAlloc(cfg, n)) ]
 (* could node n admit pod p alongside what is already assigned there? *)
 AdmitsNode(cfg, n, placed, p) == LET x == NodeParts(cfg, n, placed, p) IN x.alive /\ x.labels /\ x.taints /\ x.fit
